@@ -31,6 +31,16 @@ PI = math.pi
 LAT_MAX = 1.55        # generated latitudes stay within +-88.8 degrees
 EPS_T = 1e-9          # pieces shorter than this (in the segment's parameter) are degenerate for the oracle
 TOL_SHARE = 1e-8      # absolute tolerance on shares (fractions of a segment)
+# Absolute accuracy of the geodesic: pyproj / GeographicLib lengths carry an ABSOLUTE error of about 1e-9 m whatever the
+# length.  Measured (design.d/C04.md, round 4): for 48 000 collinear triples a-b-c at scales 1e-10 .. 1 rad,
+# dist(a,b) + dist(b,c) - dist(a,c) is never below -2.9e-9 m.  DELTA_ABS is a safe per-length bound; n measured
+# pieces of a segment of length D may therefore add up to D * (1 -+ n * DELTA_ABS / D).
+DELTA_ABS = 1e-8
+
+
+def geo_slack(n, D):
+    """relative slack on sums of n pyproj lengths compared with a length D (metres)"""
+    return n * DELTA_ABS / D if D > 0 else 0.0
 
 HEADER = ('From Coq Require Import ZArith List PrimFloat.\n'
           'From AV Require Import lib.Num lib.FloatMath model.C04_Model.\n'
@@ -435,11 +445,15 @@ def c04_oracle(case, out):
         for k, var in enumerate(ints):
             vals = inst_ints(case)[k]
             want = 0.0
+            lo_ = 0.0
             for j in range(nseg):
                 _p, D, E = expected_segment(case, j)
                 want += vals[j] * (E if D != 0 else 1.0)
+                lo_ += vals[j] * (1 - geo_slack(len(_p) + 1, D))
             got = math.fsum(var)
-            if not close(got, want, rel=1e-6, abs_=1e-300) or (all(x >= 0 for x in vals) and got < sum(vals) * (1 - 1e-12)):
+            if not close(got, want, rel=1e-6 + max([geo_slack(60, expected_segment(case, j)[1]) for j in range(nseg)] + [0.0]) +
+                         max([conditioning(case, j) for j in range(nseg)] + [0.0]), abs_=1e-300) or \
+                    (all(x >= 0 for x in vals) and got < lo_ * (1 - 1e-12)):
                 other.append(f'variable {k}: gridded total {got!r}, trajectory total {sum(vals)!r}, expected with chord excess {want!r}')
         return [(o, None) for o in other]
     for j in range(nseg):
@@ -451,7 +465,7 @@ def c04_oracle(case, out):
             vj = inst_ints(case)[k][j]
             got = math.fsum(var[p] for p in blocks[j])
             tot_impl[k] += got
-            tot_want_lo[k] += vj
+            tot_want_lo[k] += vj * (1 - (geo_slack(max(len(blocks[j]), len(_pieces)) + 1, D) if vj > 0 else 0.0))
             if D == 0:
                 ok = close(got, vj, rel=1e-9, abs_=1e-300)
                 if not ok:
@@ -463,18 +477,19 @@ def c04_oracle(case, out):
                         other.append(f'segment {j} (zero length) variable {k}: pieces sum to {got!r}, value {vj!r}')
                 continue
             kappa = conditioning(case, j)
-            ok = any(e is not None and close(got, vj * e, rel=1e-9 + kappa, abs_=1e-300) for e in Es)
+            slack = geo_slack(max(len(blocks[j]), len(_pieces)) + 1, D)
+            ok = any(e is not None and close(got, vj * e, rel=1e-9 + kappa + slack, abs_=1e-300) for e in Es)
             if ok and kappa > 1e-9 and vj > 0:
                 # ill-conditioned crossing position: whatever split is chosen, a chain of points OF the segment
                 # cannot measure more than the finely subdivided map line
                 fine = max(x for x in (fine_factor(case, j), fine_factor(case, j, True) if len(Es) == 2 else None) if x)
-                if got > vj * fine * (1 + 1e-6):
+                if got > vj * fine * (1 + 1e-6 + slack + geo_slack(4002, D)):
                     ill_hits.append((j, k, vj, got / (vj * Es[0])))
             if not ok and got != got and j in pole_nan:
                 p_hits.append((j, k, vj))
             elif not ok:
                 other.append(f'segment {j} variable {k}: pieces sum to {got!r}, expected value*{Es[0]!r} = {vj * Es[0]!r}')
-            elif vj >= 0 and got < vj * (1 - 1e-12):
+            elif vj >= 0 and got < vj * (1 - 1e-12 - slack):
                 other.append(f'segment {j} variable {k}: pieces sum to {got!r} < segment value {vj!r}')
     for k in range(len(ints)):
         if all(x >= 0 for x in inst_ints(case)[k]) and not f3_hits and not z_hits and not p_hits:
